@@ -294,6 +294,15 @@ func genCtlPayload(t *rt.Tape, label string) ctlPayload {
 	}
 	pos := t.Draw(len(others)+1, label+".ctlpos")
 	ctl := tarFile{Name: p.CtlName, Body: []byte(p.Model.render())}
+	if len(ctl.Body) > 600 && t.Bool(1, 12, label+".straddle") {
+		// the control file lies ACROSS a 32 KiB boundary of the uncompressed tar
+		// stream (where an inflater hands out its window): one file before it, sized
+		// so that the boundary falls 512 bytes into the control file's content
+		k := 1 + t.Draw(2, label+".straddle.k")
+		n := 32768*k - 1536
+		others = []tarFile{{Name: prefix + "md5sums", Body: t.Sub(label + ".straddlebody").Bytes(n)}}
+		pos = 1
+	}
 	p.Files = append(append(append([]tarFile{}, others[:pos]...), ctl), others[pos:]...)
 	return p
 }
